@@ -206,9 +206,9 @@ def main(ck: Check):
     repo = GearRepository()
     real = Real()
     n_gears = 2 if quick else 12
-    n_sampled = 120 if quick else 500          # per size (3 kinds, 4 kinds) and gear
+    n_sampled = 120 if quick else 250          # per size (3 kinds, 4 kinds) and gear
     n_corr_per_gear = 500 if quick else 1200
-    pert_seconds = 3.0 if quick else 12.0      # time box of the perturbed stats per gear
+    pert_seconds = 3.0 if quick else 6.0       # time box of the perturbed stats per gear
     slow = 0.05                                # cases slower than this on the real code are not sent to Lean
     gears, cell_sizes = choose_gears(repo, rng, n_gears)
 
